@@ -19,6 +19,11 @@ def drv(focus, n=None, tags="verif"):
                 args=args, tags=tags, timeout=dict(quick=600, thorough=3000))
 
 
+# translator run on every check: processIO as a program of Model/LoopPio.v (obligation: = Model.process_io),
+# Polling's sentinel errors, accept errno classes, errno sites, iovMax and the poller constants
+GENS = [dict(tool="genloop", out="GenLoop.v", args=["{repo}"])]
+
+
 RULE = ("each case starts the real engine (1 loop -- or 2-4 loops in the `multi` runs, where loop 0 is modelled and the others are judged by the direct oracles only --; server, or gnet.Client dialling the harness in the `client` runs; LT / ET / ET+chunk; tcp or unix; reactor or reuse-port; "
         "read-buffer 1-64 KiB; optional 4 KiB SO_SNDBUF) from the current tree with x/sys/unix swapped for the "
         "vunix shim, runs 4-30 seeded steps (peer connect / send of sizes around the read-buffer size / receive / "
@@ -28,7 +33,8 @@ RULE = ("each case starts the real engine (1 loop -- or 2-4 loops in the `multi`
         "extracted model replays the inputs and must predict all outputs and accept the history with every checker. "
         "A case is non-trivial when it reached back-pressure (EAGAIN on read/write), an asynchronous callback, a datagram callback, an injected fault or is a named scenario; distinct by hash of its input lines.")
 
-TRUSTED = ["harness/shim/vunix + lib/vcheck.unix_swap (import swap of golang.org/x/sys/unix in the listed files) and genvunix",
+TRUSTED = ["translator harness/cmd/genloop (go/ast subset of conn.processIO -> Model/LoopPio.v statement language; syntactic tables for Polling sentinels, accept errno classes, errno sites; constants evaluated by linking the current pkg/netpoll)",
+           "harness/shim/vunix + lib/vcheck.unix_swap (import swap of golang.org/x/sys/unix in the listed files) and genvunix",
            "Model/Loop.v is hand-written from connection_unix.go, connection_linux.go, eventloop_unix.go, acceptor_unix.go, "
            "poller_epoll_default.go (Trigger/Polling task part); inbound/outbound buffers as FIFO lists (C09-C11), registry as a map (C14), "
            "task queues as sequential lists (C13; C03 for the wake-up protocol)",
